@@ -20,7 +20,11 @@ ensure_batching_not_mapped_attr()
 def _handle_scalar_broadcasting(ndim: int, x: Any, dim: Any) -> Any:
     if dim is NOT_MAPPED or ndim == np.ndim(x):
         return x
-    return lax.expand_dims(x, tuple(range(np.ndim(x), ndim)))
+    # ``x`` has its batch axis in front (``bdim_at_front``).  The substitute
+    # jax.numpy primitives broadcast numpy-style, i.e. the per-example shape is
+    # padded on the LEFT, so the new unit axes go right after the batch axis
+    # (appending them at the end is only right for per-example scalars).
+    return lax.expand_dims(x, tuple(range(1, 1 + ndim - np.ndim(x))))
 
 
 def broadcast_batcher_compat(
